@@ -8,6 +8,8 @@ import warnings
 import common
 from props import accessspec as spec
 from props import classentries
+from props import sigcases
+from props import sigspec
 from props import visitlib as vl
 
 PID = "C02"
@@ -35,10 +37,18 @@ def run(tier, seed, build):
     model = common.Model()
     cases = vl.run_batch(rng, n_modules, model)
     cases += vl.run_file_batch(rng, n_modules // 3, model)
+    # analysed callables whose OWN SIGNATURE (defaults / annotations / decorators / class header) is non-literal:
+    # capture route (judged by the loop below) + whole projects (FileAnalyser vs model, pipeline, CLI; judged inside)
+    cases += sigcases.run_stage(res, random.Random(seed + 7003), tier, model)
     by_module = {}
     for c in cases:
         res.evaluations += 1
         case = {"function": c.fn_src}
+        is_sig = isinstance(c, sigcases.SigCase)
+        cls_, assign_ = (c.cls, c.assign) if is_sig else (None, None)
+        if is_sig:
+            case = {"function": c.fn_src, "file": c.file, "route": "FunctionAnalyser.analyse() as started by the real FileAnalyser (" + c.where + ")",
+                    "module": c.module_src[-3000:]}
         if c.diff is not None:
             res.disagreements.append({"case": case, "diff": c.diff[:2000]})
         if c.im["outcome"] != "ok":
@@ -52,7 +62,12 @@ def run(tier, seed, build):
                 rule = just[kind].get(full)
                 if rule is None:
                     other = [k for k in ("get", "set", "del") if full in just[k]]
-                    sig = f"phantom-{kind}:" + ("wrong-kind-body-has-" + "+".join(other) if other else "no-such-expression")
+                    part = sigspec.only_in_signature(c.fn, kind, full, cls=cls_, assign=assign_)
+                    if part is not None:
+                        # mentioned by the definition's own signature, which is not part of its body
+                        sig = f"phantom-{kind}:only-in-own-signature:{part}"
+                    else:
+                        sig = f"phantom-{kind}:" + ("wrong-kind-body-has-" + "+".join(other) if other else "no-such-expression")
                     res.count("verdict:" + sig)
                     res.violations.append({"signature": sig, "case": case, "name": full, "kind": kind})
                 else:
@@ -61,12 +76,25 @@ def run(tier, seed, build):
             n_names += 1
             rule = just["call"].get(call["name"])
             if rule is None:
-                res.count("verdict:phantom-call")
-                res.violations.append({"signature": "phantom-call", "case": case, "name": call["name"]})
+                part = sigspec.only_in_signature(c.fn, "call", call["name"], cls=cls_, assign=assign_)
+                sig = "phantom-call" if part is None else f"phantom-call:only-in-own-signature:{part}"
+                res.count("verdict:" + sig)
+                res.violations.append({"signature": sig, "case": case, "name": call["name"]})
             else:
                 res.count("justified-call:" + rule)
         if n_names >= 3:
             res.nontrivial.add(common.digest(c.fn_src))
+        if is_sig:
+            # (a) what the own signature mentions and the body does not: must be absent (it is, or a violation was just filed)
+            reported = {(k, n) for k in ("get", "set", "del") for n, _b in c.im[k + "s"]} | {("call", x["name"]) for x in c.im["calls"]}
+            own = {(k, n) for (k, n) in sigspec.signature_names(c.fn, cls_, assign_) if n not in just[k]}
+            res.count("sig:own-signature-only-names:absent", len(own - reported))
+            res.count("sig:own-signature-only-names:reported", len(own & reported))
+            # (b) signatures of defs / lambdas NESTED in the body: expressions of this body — admitted by the property;
+            # the pinned rattr reads none of them (visit_AnyFunctionDef: parameter names and body only)
+            nested = sigspec.nested_signature_names(c.fn)
+            res.count("sig:nested-signature-only-names:absent(admitted-but-unread)", len(nested - reported))
+            res.count("sig:nested-signature-only-names:reported(admitted)", len(nested & reported))
         if isinstance(c.fn, (ast.FunctionDef, ast.AsyncFunctionDef)) and c.name.startswith('fn'):
             by_module.setdefault(c.module_src, []).append(c)
         res.sample({"function": c.fn_src, "sets": c.im["sets"][:5], "dels": c.im["dels"][:5]}, cap=3)
@@ -106,6 +134,10 @@ def run(tier, seed, build):
         "NamedTuple-by-heuristic class reports nothing; an @rattr_results entry reports its declared literals",
         "[interp] when one identifier has several definitions in a file the entry is judged against the last one (Python's rule); "
         "an entry completely justified by a shadowed definition is not counted against the property",
+        "[interp] the analysed callable's own signature (parameter defaults, annotations, return annotation, decorators, type-parameter "
+        "bounds; for __init__ / static methods also the class header; for `name: ANN = lambda` the annotation) is not part of its body: "
+        "a name only the signature mentions is a phantom (`only-in-own-signature:<part>`). The signature of a def / lambda NESTED in the "
+        "body is an expression of that body: admitted if reported (the pinned rattr reports none: counted under sig:nested-…)",
     ]
     return res
 
